@@ -181,16 +181,21 @@ Fixpoint sum_disp (ops : list hop) : option (Q * Q * Q) :=
               end
   end.
 
+(* relative moves and default changes never consult the link *)
+Lemma hexec_op2_rel sq o s d : rel_disp o = Some d -> hexec_op2 sq o s = hexec_op sq o s.
+Proof. destruct o; cbn; intros H; try discriminate; reflexivity. Qed.
+
 Theorem hl_position_is_sum sq ops : forall s pos s' pos' dx dy dz,
   sqrt_spec sq -> sum_disp ops = Some (dx, dy, dz) ->
   hexec_body sq ops s pos = (s', None, pos') ->
   hx s' == hx s + dx /\ hy s' == hy s + dy /\ hz s' == hz s + dz.
 Proof.
-  induction ops as [|o ops IH]; intros s pos s' pos' dx dy dz Hsq Hsum H; cbn in *.
+  induction ops as [|o ops IH]; intros s pos s' pos' dx dy dz Hsq Hsum H; cbn [hexec_body sum_disp] in *.
   - injection Hsum as <- <- <-. injection H as <- _. repeat split; ring.
   - destruct (rel_disp o) as [[[a b] c]|] eqn:Hr; [|discriminate].
     destruct (sum_disp ops) as [[[a' b'] c']|] eqn:Hs; [|discriminate].
     injection Hsum as <- <- <-.
+    rewrite (hexec_op2_rel sq o s _ Hr) in H.
     destruct (hexec_op sq o s) as [s1 [e|]] eqn:Ho; [discriminate|].
     destruct (hl_op_position sq o s s1 a b c Hsq Hr Ho) as (Hx & Hy & Hz).
     destruct (IH s1 _ s' pos' a' b' c' Hsq eq_refl H) as (Hx' & Hy' & Hz').
